@@ -2,6 +2,8 @@ import sys,os
 sys.path.insert(0,os.path.dirname(os.path.dirname(os.path.abspath(__file__))))
 from jobs_lib import vf,blk,other
 def jobs(tier):
-    return vf(tier,'C20')+blk(tier,lambda j:'hs1' in j.name)
-CLAIM={'text':'Inductive-step model checking of the half-rate arithmetic in the decoder accumulator (samples per block = (lW/4+W/4)>>1, full-rate granule bookkeeping, trims use extra>>hs) and bounded model checking of ov_halfrate (refusal rolls every link back to full rate, decode machine dumped, position re-established) and of sample seeks landing on even positions.',
+    from vlib.runner import Job
+    hsf=[Job('hs-flag','C20/hs_flag.c',unwind=3,witnesses=['refused','accepted with a flag other than 0/1'],functions=['vorbis_synthesis_halfrate','vorbis_synthesis_halfrate_p'],bounds='any int flag, block sizes 64..8192',models=['_vorbis_block_ripcord/_vorbis_block_alloc, registry: not reached'])]
+    return hsf+vf(tier,'C20')+blk(tier,lambda j:'hs1' in j.name)
+CLAIM={'text':'Inductive-step model checking of the half-rate arithmetic in the decoder accumulator (samples per block = (lW/4+W/4)>>1, full-rate granule bookkeeping, trims use extra>>hs) and bounded model checking of vorbis_synthesis_halfrate (every non-zero flag is stored as the shift count 1), of ov_halfrate (refusal rolls every link back to full rate; on acceptance the decode machine is dumped and rebuilt, by a sample seek to the same position, for the setting in force on return) and of sample seeks landing on even positions.',
  'note':'Trusted: contract stubs for the dsp in ov_halfrate; block sizes listed per job. Bound: page positions and link lengths even under half rate (odd ones make later positions odd: observation D17). Bit-identity of audio after toggling is not executed.'}
